@@ -141,7 +141,10 @@ let predicted_node_dirs names nn dropped =
         else if k < 2 * nn then k - nn = node
         else (if List.mem names.(k) side_a then node = 0 else node = nn - 1)) (List.init n (fun k -> k)) in
     let last = List.fold_left (fun best k -> if pos_in order k > pos_in order best then k else best) (List.hd holders) holders in
-    if last >= 2 * nn then incr count
+    (* the directory stays iff the last holder's drop releases the SharedNode while a port tag of the node
+       still exists: every port-side object keeps a state that owns its port tag (declared after the
+       SharedNode holder), except EntryHandleMut: the Writer's tag is a field of the Writer handle itself *)
+    if last >= 2 * nn && names.(last) <> "entry_handle_mut" then incr count
   done;
   !count
 
